@@ -339,9 +339,9 @@ func runReopen(o *Opts) {
 							dom = dom && isASCII(k) && addrInDomain(v.Source)
 						}
 					}
-					c.Coq = fmt.Sprintf("Case (s2l \"/bundle\") %s %s %s []", coqManifest(doc), coqBool(dom), openedCoq(b0, target, "/bundle"))
+					c.Coq = fmt.Sprintf("Case (s2l \"/bundle\") %s %s true %s []", coqManifest(doc), coqBool(dom), openedCoq(b0, target, "/bundle"))
 					c2 := Case{Kind: "extracted/model", Key: string(kb) + "|2", Desc: map[string]string{"manifest": bb.obs.Manifest, "root": "/extracted"},
-						Coq: fmt.Sprintf("Case (s2l \"/extracted\") %s %s %s []", coqManifest(doc), coqBool(dom), openedCoq(b2, dir2, "/extracted"))}
+						Coq: fmt.Sprintf("Case (s2l \"/extracted\") %s %s true %s []", coqManifest(doc), coqBool(dom), openedCoq(b2, dir2, "/extracted"))}
 					defer sink.Add(c2)
 				}
 			}()
